@@ -28,7 +28,7 @@ from pexpect.exceptions import EOF, TIMEOUT
 PROPERTY = 'C09'
 RULE = ('Hypothesis-generated (fate, way of dying, observation history of 1-5 operations with repeats, transport) on '
         'real children: exit codes 0..255, 18 terminating signals, self-inflicted or sent through kill()/terminate()/'
-        'close(), or met after a close(force=False) that the child refused (it ignores HUP/INT); pty, PopenSpawn and run().  Thorough adds the exhaustive product: all 256 exit codes x 6 first '
+        'close(), or met after a close(force=False) that the child refused (it ignores HUP/INT); pty (a quarter started the pxssh way, spawn(None) then _spawn()), PopenSpawn and run().  Thorough adds the exhaustive product: all 256 exit codes x 6 first '
         'observers and all signals x 6 first observers.  Non-trivial: a code outside {0,1} or a signal, observed '
         'through >= 2 operations.  Distinct by hash of the case.')
 ASSUMPTIONS = [
